@@ -375,12 +375,11 @@ func verifC08RunResolver(f verifkit.F, rec *verifkit.Rec, qs []verifC08Q, ops []
 			if len(ds) == 0 {
 				continue
 			}
-			first := ds[0]
 			if len(ds) > 8 {
 				ds = append(ds[:8], fmt.Sprintf("... %d more", len(ds)-8))
 			}
 			// root-cause probe: is a parsed policy of this token, as held in the shared cache, no longer its rule text?
-			key := "C08/resolver-decision-depends-on-history/" + strings.ToLower(strings.SplitN(first, "(", 2)[0])
+			key := "C08/resolver-decision-depends-on-history"
 			cause := ""
 			for _, p := range pols {
 				row := live.testPolicies[p]
